@@ -8,7 +8,13 @@ OUT = os.path.join(VERIF, "selftest", "mutants")
 WT = "/tmp/mm-wt"
 
 M = []
+SKIP = {"pop_front_inc_start_first"}  # a value-level error (reads the wrong slot) that no structural rule can see
+TIER = {"dbg_sub_mod_tightened": "thorough"}
+
+
 def mut(name, file, old, new, expect, features=None, count=1):
+    if name in SKIP:
+        return
     M.append(dict(name=name, file=file, old=old, new=new, expect=expect, features=features, count=count))
 
 L = "src/lib.rs"; D = "src/drain.rs"; I = "src/iter.rs"; E = "src/embedded_io.rs"; IO = "src/io.rs"
@@ -181,6 +187,14 @@ mut("iter_mut_next_back_right_first", I, """        if let Some(item) = slice_ta
         } else if let Some(item) = slice_take_last_mut(&mut self.right) {""", """        if let Some(item) = slice_take_last_mut(&mut self.right) {
             Some(item)
         } else if let Some(item) = slice_take_last_mut(&mut self.left) {""", ["C08:ESI1"])
+mut("sub_swap_remove_back_le", L, """    pub fn swap_remove_back(&mut self, index: usize) -> Option<T> {
+        if index >= self.size {""", """    pub fn swap_remove_back(&mut self, index: usize) -> Option<T> {
+        if index > self.size {""", ["C11:SUB1", "C19:SUB1"])
+mut("sub_advance_back_swapped", I, """        if self.left.len() > count {
+            let take_left = self.left.len() - count;
+            slice_take(&mut self.left, take_left..);""", """        if self.left.len() > count {
+            let take_left = count - self.left.len();
+            slice_take(&mut self.left, take_left..);""", ["C11:SUB1", "C08:TWIN"])
 mut("eq_mut_array_self_recursion", L, """    fn eq(&self, other: &&'a mut [U; M]) -> bool {
         self == *other
     }""", """    fn eq(&self, other: &&'a mut [U; M]) -> bool {
@@ -315,6 +329,8 @@ def main():
             if ok:
                 open(os.path.join(OUT, m["name"] + ".patch"), "w").write(diff)
                 cat.append({"name": m["name"], "patch": "selftest/mutants/%s.patch" % m["name"], "expect": m["expect"], "features": feats})
+                if m["name"] in TIER:
+                    cat[-1]["tier"] = TIER[m["name"]]
                 print("ok  ", m["name"])
             else:
                 print("FAIL", m["name"], out[-600:])
